@@ -37,7 +37,7 @@ def plan(tier, seed):
         specs.append({"klass": "corpus", "i": k, "file": os.path.relpath(f, env.REPO), "soft_timeout": 400})
     n = 1500 if tier == "quick" else 8000
     for k in range(n):
-        specs.append({"klass": "random", "i": k, "fill": True})
+        specs.append({"klass": "random", "i": k, "fill": True, "remove_unused": k % 4 == 3})
     for s in specs:
         s["prop"] = ID
     return specs
@@ -61,7 +61,7 @@ def case_text(spec, rng):
     return sp.render(rng)
 
 
-def check_model(text, rng, want=8, tier="quick"):
+def check_model(text, rng, want=8, tier="quick", remove_unused=False):
     """The monitor proper.  -> dict(status, violations, counters, ...)"""
     out = {"violations": [], "counters": {}, "evaluations": 0, "nontrivial": False, "status": "held"}
     cn = out["counters"]
@@ -82,7 +82,7 @@ def check_model(text, rng, want=8, tier="quick"):
         out["site"] = C.trace_site(lo.exc)
         return out
     ode = lo.value
-    co = C.py_code(ode)
+    co = C.py_code(ode, remove_unused=remove_unused)
     if not co.ok:
         out["status"] = "violated"
         v = {"kind": "codegen_raises", "detail": {"exc": co.describe(), "site": C.trace_site(co.exc, 4)}}
@@ -215,7 +215,7 @@ def run_case(spec, ctx):
     text = case_text(spec, rng)
     tier = spec.get("tier", "quick")
     want = 8 if tier == "quick" else 20
-    out = check_model(text, rng, want=want, tier=tier)
+    out = check_model(text, rng, want=want, tier=tier, remove_unused=bool(spec.get("remove_unused")))
     # a packed model that cannot be generated: find the guilty expressions one at a time
     if spec.get("exprs") and not spec.get("text") and (out.get("raised_anywhere") or any(v["kind"] in ("codegen_raises", "rhs_raises", "exec_fails") for v in out["violations"])):
         vs = []
